@@ -1,5 +1,6 @@
 TECHNIQUE = ('bounded symbolic execution of LLVM IR (clang -O1 of the real dispenso/cpu_set.cpp + harness) lowered to C: '
-             'CBMC/SAT (cadical); differential harnesses with a symbolic probe id against reference oracles')
+             'CBMC/SAT (cadical); differential harnesses with a symbolic probe id against reference oracles; grouping: literal topology shapes with '
+             'symbolic L3 membership and maxGroupSize, CBMC path exploration (--paths lifo, minisat per path)')
 ASSUMPTIONS = [
     'Linux backing store: CpuSet wraps glibc cpu_set_t (1024 bits, CPU_SET/CPU_CLR/CPU_ISSET macros lowered as is); '
     'CPU_COUNT -> __sched_cpucount is modelled as the sum of per-word popcounts over the given byte size',
@@ -8,14 +9,22 @@ ASSUMPTIONS = [
     'cpu-list reference grammar: sysfs cpulist output format (comma separated decimal ids and inclusive lo-hi ranges with lo <= hi, '
     'optional trailing newline/space) plus the leniencies documented by tests/cpu_set_test.cpp (white space before an item, empty items); '
     'other strings only have to be handled memory-safely and must yield representable ids only',
+    'grouping (topo_*): physical cache hierarchy - L2 atoms disjoint, duplicate free and listed by increasing first CPU id, L3 groups disjoint, '
+    'all CPUs of an atom in the same L3 group or in none, ids non-negative; the L3 lists may name further CPUs that belong to no L2 atom '
+    '(the harness uses such placeholder ids to keep the list lengths literal); std::thread::hardware_concurrency() = 2 (framework model)',
+    'grouping (topo_*): memcpy/memmove of <= 8 32-bit words are modelled as word assignments instead of CBMC built-ins (harness/C43/topo_rt.c, '
+    'same semantics); CBMC standard pointer/bounds checks stay enabled; --paths lifo explores every control path separately',
 ]
 OUTSIDE = ('range operations touching more than 8 (quick) / 32 (thorough) representable ids when start and end are both symbolic '
            '(SAT cost grows steeply with the number of symbolic-index bit writes: 16 ids ~80 s, 32 ids ~17 min, 64 ids > 10 min for one op alone, 1024 ids > 20 GB); '
            'cpu-list strings longer than 3 characters (length 4 did not finish in 1700 s / 5.4 GB) and therefore ids >= 10 inside ranges, '
            'ids above 2^20 (parseIntClamped rejects them: "0-2000000" parses to the empty set, by design of kMaxReasonableCpuId); '
            'the portable (Windows/macOS) bitset backend; '
-           'buildGroupsFromCacheTopology (family c): the harness groups.cpp is written but the lowered libstdc++ vector/sort code with '
-           'symbolic sizes exceeds 20 GB in CBMC even for 2 L2 groups x 2 CPUs, so this part of the property is NOT decided here')
+           'buildGroupsFromCacheTopology (family c): topologies with more than 3 L2 atoms or more than 2 CPUs per atom, more than 3 L3 groups, '
+           'empty L2 atoms, L2 lists not sorted by first CPU id, CPU ids other than the literal 2k / 2k+1 layout, L3 lists that name CPUs '
+           'twice or an L2 atom straddling two L3 groups (the code only looks at the first CPU of an atom), negative ids (would index '
+           'the cpu->L3 table out of bounds); 3-atom shapes other than 1/1/1 and 2/2/2; states are not merged (path exploration), '
+           'the merged encoding of even 2 atoms x 2 CPUs needs > 18 GB')
 
 RANGE_LOOPS = ['_ZN8dispenso6CpuSet8addRangeEii', '_ZN8dispenso6CpuSet11removeRangeEii']
 PARSE_LOOP = '_ZN8dispenso6detail12_GLOBAL__N_116parseAndAddRangeEPcRNS_6CpuSetE.0'
@@ -26,6 +35,18 @@ def _range_unwind(n):
 
 
 BUILD = '_ZN8dispenso6detail28buildGroupsFromCacheTopologyERKSt6vectorINS_10CacheGroupESaIS2_EES6_i'
+
+def _topo(name, shape, tiers, timeout):
+    n = 3 if shape[2] else 2
+    return {'name': name, 'src': 'topo.cpp', 'engine': 'cbmc', 'repo_sources': ['dispenso/cpu_set.cpp'],
+            'defs': {'VF_S0': shape[0], 'VF_S1': shape[1], 'VF_S2': shape[2]},
+            'unwind': 8, 'unwind_fn': {BUILD: 20, 'vf_memmove': 9, 're:scanGroup': 40, 'vf_main': 20},
+            'ptrdiff': True, 'checks': ['--div-by-zero-check', '--paths', 'lifo'], 'solver': 'minisat',
+            'rt_extra': ['harness/C43/topo_rt.c'], 'timeout': timeout, 'tiers': tiers, 'mem_gb': 10,
+            'bounds': 'buildGroupsFromCacheTopology: literal shape of %d L2 atoms with %s CPUs (ids 2k, 2k+1, increasing); symbolic: '
+                      'the L3 group of every atom (none or one of 3 groups: all %d membership vectors) and maxGroupSize '
+                      '(any int32); hardware_concurrency() = 2' % (n, '/'.join(str(x) for x in shape[:n]), 4 ** n)}
+
 
 INSTANCES = [
     {'name': 'algebra_point', 'src': 'algebra.cpp', 'engine': 'cbmc', 'repo_sources': ['dispenso/cpu_set.cpp'],
@@ -50,7 +71,10 @@ INSTANCES = [
     {'name': 'groups', 'src': 'groups.cpp', 'engine': 'cbmc', 'repo_sources': ['dispenso/cpu_set.cpp'],
      'defs': {'VF_NL2': 2, 'VF_NCPU': 4}, 'unwind': 6, 'timeout': 900, 'tiers': ['experimental'],
      'bounds': '<= 2 L2 groups x <= 2 cpus, <= 2 L3 groups'},
-    {'name': 'topo_dev', 'src': 'topo.cpp', 'engine': 'cbmc', 'repo_sources': ['dispenso/cpu_set.cpp'],
-     'defs': {'VF_S0': 2, 'VF_S1': 2, 'VF_S2': 2}, 'unwind': 8, 'unwind_fn': {BUILD: 20, 'vf_memmove': 9, 're:scanGroup': 40, 'vf_main': 20}, 'ptrdiff': True, 'checks': ['--div-by-zero-check', '--paths', 'lifo'], 'solver': 'minisat', 'rt_extra': ['harness/C43/topo_rt.c'], 'timeout': 900, 'tiers': ['dev'], 'mem_gb': 10,
-     'bounds': 'dev'},
+    # family (c), decided: one instance per literal topology shape, CBMC in path-exploration mode (see topo.cpp / topo_rt.c)
+    _topo('topo_22', (2, 2, 0), ['quick', 'thorough'], 600),
+    _topo('topo_111', (1, 1, 1), ['thorough'], 1500),
+    _topo('topo_222', (2, 2, 2), ['thorough'], 1700),
+    _topo('topo_12', (1, 2, 0), ['thorough'], 600),
+    _topo('topo_21', (2, 1, 0), ['thorough'], 600),
 ]
